@@ -30,7 +30,7 @@ func init() {
 		ID:    "C03",
 		Level: "model_checking",
 		Rule: "explicit-state search over signing histories on the real PECOFFBinary: initial states = well-formed images (6 synthetic layouts covering both formats, unordered sections, gaps, trailing data, size mod 8 in {0,1,3,5,7}; the same layouts carrying a third-party certificate table; the repository's test.pecoff and test.pecoff.signed); " +
-			"transitions = Sign with an RSA-2048 / 3072 / 4096 key (also a key that already signed) and reparse (Parse(Bytes())); a state is (output bytes, number of in-place signatures since the last parse), deduplicated exactly; " +
+			"transitions = Sign with an RSA-2048 / 3072 / 4096 key (self-signed certificates), with a CA-issued leaf certificate (issuer != subject), also by a key that already signed, and reparse (Parse(Bytes())); a state is (output bytes, number of in-place signatures since the last parse), deduplicated exactly; " +
 			"in every state an independent reader checks the output file: original bytes preserved except the directory entry, zero padding to 8, 8-aligned table spanning exactly to EOF, every entry revision 0x0200 / type 0x0002 / dwLength = 8 + blob length, every blob's embedded digest = the unpadded specification digest of the output file itself, " +
 			"Parse(out).Hash == digest before signing, Verify true for exactly the certificates that signed (false for the others and for same-issuer+serial-other-key)",
 		Assumptions: []string{"frozen clock and memoised deterministic signatures make equal histories byte-identical", "refpe/refp7 as in C01/C04"},
@@ -84,7 +84,7 @@ func c03Inits() []c03Init {
 	return out
 }
 
-var c03KeyIDs = []int{1, 3, 4}
+var c03KeyIDs = []int{1, 3, 4, 5} // 5 = key 1 with a CA-issued leaf certificate (issuer != subject)
 
 type c03Op struct {
 	name string
@@ -92,7 +92,7 @@ type c03Op struct {
 }
 
 func c03Ops() []c03Op {
-	return []c03Op{{"Sign(RSA-2048 k1)", 1}, {"Sign(RSA-3072 k3)", 3}, {"Sign(RSA-4096 k4)", 4}, {"reparse", 0}}
+	return []c03Op{{"Sign(RSA-2048 k1)", 1}, {"Sign(RSA-3072 k3)", 3}, {"Sign(RSA-4096 k4)", 4}, {"reparse", 0}, {"Sign(RSA-2048 k1, CA-issued leaf certificate)", 5}}
 }
 
 type c03World struct {
@@ -323,7 +323,8 @@ func c03Run(c *hx.Ctx, tier, unit string) {
 	im0, _ := refpe.Parse(in.img)
 	nThird := len(refpe.CertTable(in.img, im0))
 	digest0, _, _ := refpe.Digest(in.img)
-	certOf := map[int]*x509.Certificate{1: keys.C(1), 3: keys.C(3), 4: keys.C(4)}
+	certOf := map[int]*x509.Certificate{1: keys.C(1), 3: keys.C(3), 4: keys.C(4), 5: keys.Leaf(1)}
+	keyOf := map[int]int{1: 1, 3: 3, 4: 4, 5: 1}
 
 	build := func(path []int) (*c03World, error, *hx.Panic) {
 		w := &c03World{signers: map[int]int{}, orig: orig, nThird: nThird, digest0: digest0}
@@ -339,7 +340,7 @@ func c03Run(c *hx.Ctx, tier, unit string) {
 					w.p, err = authenticode.Parse(bytes.NewReader(w.p.Bytes()))
 					w.inplace = 0
 				} else {
-					_, err = w.p.Sign(memoSignerFor(op.key), certOf[op.key])
+					_, err = w.p.Sign(memoSignerFor(keyOf[op.key]), certOf[op.key])
 					w.inplace++
 					w.signers[op.key]++
 				}
